@@ -389,15 +389,30 @@ func verifHosts(l *roundRobinLoadBalancer) []*Host { return l.hosts.Load().([]*H
 
 // Receive: a response goes to the request registered under its stream id - to that one only - and
 // the entry is removed; an unknown stream id is an error that closes only this connection.
-// C08 "plain and compressed sessions alike": the cached PREPARE frame is the frame as a client sent it - flags
-// and possibly compressed body included - so it can be replayed only on a connection that uses the compression
-// it was sent with. The cache key is a function of the connection's compression and the prepared id
-// (assumed: different compressions give different keys); a frame is stored under, and looked up by, the key of
-// the connection at hand.
+// C08 "plain and compressed sessions alike", several clients: the cached PREPARE frame is the frame as a client
+// sent it - version byte, flags and possibly compressed body included - so it can be replayed only on a connection
+// that speaks the protocol version and uses the compression it was sent with. The cache key is a function of the
+// connection's compression, the protocol version and the prepared id (assumed: different compressions or
+// versions give different keys); a frame is stored under the key of the connection at hand and the version of
+// the response at hand, and looked up the same way. An entry filed under the bare id (not by a connection) is
+// used only if its frame's version is the connection's and it is not compressed on a connection without compression.
 //@ func proxycore.ClientConn.preparedCacheKey [C08]
 //@   trusted
 //@   requires c != nil
-//@   ensures result == ufStr("prepared.key", c.compression, ufStr("hex", id))
+//@   ensures result == ufStr("prepared.key", c.compression, version, ufStr("hex", id))
+//@   modifies nothing
+
+//@ func proxycore.ClientConn.loadPrepared [C08, C17]
+//@   local $lpKey string = ""
+//@   local $lpFirstKeyOK bool = false
+//@   local $lpFoundKeyed bool = false
+//@   requires c != nil && c.preparedCache != nil
+//@   after proxycore.ClientConn.preparedCacheKey#1 set $lpKey = result
+//@   before proxycore.PreparedCache.Load#1 set $lpFirstKeyOK = (arg0 == $lpKey)
+//@   after proxycore.PreparedCache.Load#1 set $lpFoundKeyed = result1
+//@   ensures own-key-first: $lpFirstKeyOK && $lpKey == ufStr("prepared.key", c.compression, version, ufStr("hex", id))
+//@   ensures bare-entry-must-fit: result1 && !$lpFoundKeyed ==> result0 != nil && result0.PreparedFrame != nil && result0.PreparedFrame.Header != nil && result0.PreparedFrame.Header.Version == version
+//@   ensures keyed-entry-wins: $lpFoundKeyed ==> result1
 //@   modifies nothing
 
 //@ func proxycore.ClientConn.Receive [C01, C02, C08, C17]
@@ -412,9 +427,11 @@ func verifHosts(l *roundRobinLoadBalancer) []*Host { return l.hosts.Load().([]*H
 //@   local $crExamined bool = false
 //@   local $crKey string = ""
 //@   local $crStoredUnderKey bool = true
+//@   local $crVersion primitive.ProtocolVersion = 0
 //@   requires c != nil && c.pending != nil && c.codec != nil && c.conn != nil && c.closingMu != nil && nolocks() && !$arrived
-//@   after frame.RawCodec.DecodeRawFrame#1 set $crDecoded = (result1 == nil); $crStream = result0.Header.StreamId; $crOpCode = result0.Header.OpCode; $arrived = (result1 == nil); $arrivedStream = result0.Header.StreamId
+//@   after frame.RawCodec.DecodeRawFrame#1 set $crDecoded = (result1 == nil); $crStream = result0.Header.StreamId; $crOpCode = result0.Header.OpCode; $crVersion = result0.Header.Version; $arrived = (result1 == nil); $arrivedStream = result0.Header.StreamId
 //@   before proxycore.ClientConn.maybeCachePrepared#* set $crCached = true
+//@   before proxycore.ClientConn.preparedCacheKey#* set $crStoredUnderKey = $crStoredUnderKey && arg1 == $crVersion
 //@   after proxycore.ClientConn.preparedCacheKey#* set $crKey = result
 //@   before proxycore.PreparedCache.Store#* set $crStoredUnderKey = $crStoredUnderKey && arg0 == $crKey
 //@   before proxycore.ClientConn.maybePrepareAndExecute#1 set $crExamined = true
@@ -447,19 +464,19 @@ func verifHosts(l *roundRobinLoadBalancer) []*Host { return l.hosts.Load().([]*H
 //@   local $mpSent bool = false
 //@   local $mpSendOK bool = false
 //@   local $mpTried bool = false
-//@   local $mpKey string = ""
-//@   local $mpLoadKeyOK bool = true
+//@   local $mpLoadedFor primitive.ProtocolVersion = 0
+//@   local $mpLoadedOK bool = true
 //@   requires c != nil && c.pending != nil && c.codec != nil && c.conn != nil && c.closingMu != nil && c.preparedCache != nil && raw != nil && raw.Header != nil && request != nil
 //@   requires well-formed-request: reqOK(request) [C17]
 //@   before frame.RawCodec.ConvertFromRawFrame#1 set $mpTried = true
 //@   after frame.RawCodec.ConvertFromRawFrame#1 set $mpDecoded = (result1 == nil); $mpMsg = result0.Body.Message
-//@   after proxycore.ClientConn.preparedCacheKey#* set $mpKey = result
-//@   before proxycore.PreparedCache.Load#* set $mpLoadKeyOK = $mpLoadKeyOK && arg0 == $mpKey
-//@   after proxycore.PreparedCache.Load#1 set $mpCached = result1
+//@   before proxycore.ClientConn.loadPrepared#* set $mpLoadedFor = arg1; $mpLoadedOK = $mpLoadedOK && arg1 == raw.Header.Version && arg2 == as($mpMsg, *message.Unprepared).Id
+//@   after proxycore.ClientConn.loadPrepared#1 set $mpCached = result1
+//@   before proxycore.PreparedCache.Load#* set $mpLoadedOK = false
 //@   after proxycore.ClientConn.Send#1 set $mpSent = true; $mpSendOK = (result == nil)
 // C08 "the client never sees UNPREPARED while the statement is cached": every error answer to anything but a
 // re-prepare is decoded and looked at
-//@   ensures looked-up-by-the-connection-key: $mpLoadKeyOK && ($mpCached ==> $mpKey == ufStr("prepared.key", c.compression, ufStr("hex", as($mpMsg, *message.Unprepared).Id))) [C08]
+//@   ensures looked-up-for-this-connection: $mpLoadedOK [C08]
 //@   ensures error-is-examined: !typeis(request, *proxycore.prepareRequest) ==> $mpTried [C08]
 //@   ensures not-unprepared: !$mpDecoded || !typeis($mpMsg, *message.Unprepared) ==> !result && !$mpSent
 //@   ensures not-cached: $mpDecoded && typeis($mpMsg, *message.Unprepared) && !$mpCached ==> !result && !$mpSent
